@@ -147,6 +147,12 @@ func (inst *instance) DrainListeners() {
 	})
 }
 
+// ShutdownLocalConf shutdowns the local conf store. There is no local
+// conf store to stop any more, but the instance must implement the step
+// itself: otherwise the call is promoted to the embedded Restarter, which
+// forwards it to its Instance, that is to this instance again, for ever.
+func (inst *instance) ShutdownLocalConf() {}
+
 // Shutdown shutdowns the instance.
 func (inst *instance) Shutdown() {
 	inst.admin.Stop()
